@@ -361,7 +361,7 @@ def label_at(segs, c, pos):
 
 def oracle(case, obs):
     if "error" in obs:
-        if case["no_repl"] and obs.get("error") == "exception" and "No available sample" in obs.get("msg", ""):
+        if case["no_repl"] and obs.get("deliberate") and obs.get("error") not in ("harness_glue", "timeout"):
             return None  # the panel ran out: refusing is the required behaviour (C14)
         return f"output_vcf raised {obs}"
     kv = kept_variants(case)
